@@ -4877,12 +4877,17 @@ def translate(repo, overrides):
     L += guarded_section("schedule", lambda: sched_section(toks, lambda rel: raw_of[rel]))  # [schedule extension] fourth increment: schedule.rs
     L += guarded_section("dated2", lambda: dated2_section(toks))  # [dated2 extension] fifth increment: the interval consumers of date_filter.rs
     L += guarded_section("dated3", lambda: dated3_section(toks))  # [dated3 extension] sixth increment: single_interval_from_bounds, the `Date` arms of MonthdayRange, intervals_from_bounds
+    L += guarded_section("week", lambda: week_section(toks, lambda rel: raw_of[rel]))  # [week extension] seventh increment: WeekRange::next_change_hint
+    L += guarded_section("week-dates", lambda: week_dates_section(toks))  # [week extension] count_days_in_month
     L += guarded_section("eval", lambda: eval_section(toks, lambda rel: raw_of[rel]))  # [eval extension] fifth increment: opening_hours.rs
     L += guarded_section("eval2", lambda: eval2_section(toks, lambda rel: raw_of[rel]))  # [eval2 extension] sixth increment: next_change_hint
     L += guarded_section("eval2-day", lambda: eval2_day_section(toks, lambda rel: raw_of[rel]))  # [eval2 extension] DaySelector::filter / next_change_hint
     toks.raw = lambda rel: (toks(rel), raw_of[rel])[1]  # [tz extension]
     L += guarded_section("tz", lambda: tz_section(toks, lambda rel: raw_of[rel]))  # [tz extension] fifth increment: localization/localize.rs
     L += guarded_section("tz-pipe", lambda: tz_pipe_section(toks))  # [tz extension] the localisation pipeline of opening_hours.rs
+    L += guarded_section("iter", lambda: iter_section(toks))  # [iter extension] seventh increment: state / is_open / is_closed / is_unknown
+    L += guarded_section("iter-next", lambda: iter_tdi_section(toks))  # [iter extension] TimeDomainIterator::next
+    L += guarded_section("iter-new", lambda: iter_tdi_new_section(toks))  # [iter extension] TimeDomainIterator::new
     L.insert(L.index("import OH.Model.RustInt") + 1, "import OH.Model.RustTz")  # [tz extension]
     L.append("end OH.Generated.Arith")
     return "\n".join(L).replace("import OH.Model.RustInt\n", "import OH.Model.RustInt\nimport OH.Model.RustSeq\nimport OH.Model.RustVec\n", 1) + "\n"
@@ -11038,6 +11043,1237 @@ def dated3_section(toks):
     return L
 
 # ---- end of [dated3 extension] ------------------------------------------------------------------
+
+# [week extension] seventh increment: `impl DateFilter for ds::WeekRange` `next_change_hint` of
+# opening-hours/src/filter/date_filter.rs (DESIGN §8.9, notes/RS2LEAN7-week.md).  A small front end of its own: the base
+# `Parser` in chrono mode with one more form (`while c { body }` as a statement) and a generator `WeekGen` over a closed table
+# of types (u8 / u32 / i32 / bool, chrono's NaiveDate / IsoWeek / Weekday as in chrono mode, `RangeInclusive<u8>`,
+# `RangeInclusive<WeekNum>`, references to these).  New constructs:
+#  * `while c { x = e; .. }` over `let mut` locals: a definition `<fn>.loop1 (fuel : Nat) <state> <variables read>` (the shape of
+#    the schedule extension: `.ret v s` = `return v` / a failing `?` inside the body, `.next s` = the condition failed); the
+#    function gets the parameter `fuel`; the theorems prove a fuel that suffices;
+#  * `return e` / `?` NESTED inside the block that computes a value (`let x = u32::from({ if c { a } else { return None } });`):
+#    the rest of the function after the `let` is a local function `cont<n>` (a join point) every value leaf calls; the `return`
+#    leaves end the function;
+#  * `**self.range.start()` / `self.range.start() > self.range.end()` on `RangeInclusive<WeekNum>`: the accessor, then the
+#    reference, then `impl Deref for WeekNum` (`.v0`; shape checked) / `#[derive(PartialOrd, Ord)]` on the one-field newtype
+#    (the order of the field; the derive is checked on the declaration); `u8 OP &u8` (std's impls for references);
+#  * `u32::from(e)` on a `u8`: value-preserving.
+# The chrono calls are the entries of CHRONO_METHODS / CHRONO_CALLS (trusted as the calendar model is); `wrapping_contains` is
+# the translated generic function.  Everything else is an error naming file:line.
+WEEK_HDR = "impl DateFilter for ds :: WeekRange"
+WEEK_SIG = "fn next_change_hint < L > ( & self , NaiveDate , & Context < L > ) -> Option < NaiveDate > where Localize ,"  # as `d3_sig_text` prints it (parameter names and `L :` removed)
+WEEK_DECLS = [
+    (True, "# [ derive ( Copy , Clone , Debug , Hash , PartialEq , Eq , PartialOrd , Ord ) ] pub struct WeekNum ( pub u8 ) ;",
+     "`#[derive(.., PartialOrd, Ord)] pub struct WeekNum(pub u8);`"),
+    (False, "impl Deref for WeekNum { type Target = u8 ; fn deref ( & self ) -> & Self :: Target { & self . 0 } }", "`impl Deref for WeekNum` (`&self.0`)"),
+    (False, "pub struct WeekRange { pub range : RangeInclusive < WeekNum > , pub step : u8 , }", "`struct WeekRange { range: RangeInclusive<WeekNum>, step: u8 }`"),
+    (False, "pub use chrono :: Weekday ;", "`pub use chrono::Weekday;` (`ds::Weekday` is read as chrono's)"),
+]
+WEEK_INTS = ("u8", "u32", "i32")
+WEEK_CHRONO_TY = {"NaiveDate": "date", "IsoWeek": "isoweek", "Weekday": "wd", "u32": "u32", "i32": "i32", "Option < NaiveDate >": ("opt", "date")}
+WEEK_LTY = {"u8": "Int", "u32": "Int", "i32": "Int", "date": "Int", "isoweek": "Int", "wd": "Int", "bool": "Bool"}
+
+
+def week_lty(t, top=True):
+    if isinstance(t, tuple):
+        if t[0] == "ref":
+            return week_lty(t[1], top)
+        s_ = {"opt": "Option", "rng": "RangeInclusive"}[t[0]] + " " + week_lty(t[1], False)
+        return s_ if top else f"({s_})"
+    return "WeekNum" if t == "weeknum" else WEEK_LTY[t]
+
+
+class WeekParser(Parser):
+    def primary(self, nostruct):
+        if self.at("while"):
+            # `while c { .. }`: as a statement-level `if` node so that `Parser.block` accepts it without `;`
+            line = self.eat("while").line
+            if self.at("let"):
+                fail(self.where(), "`while let` is outside the translated subset (week functions)")
+            c = self.expr(nostruct=True)
+            body = self.block()
+            return Node("if", line, c=Node("weekwhile", line, c=c, body=body), a=None, b=None)
+        return Parser.primary(self, nostruct)
+
+
+class WeekGen:
+    def __init__(self, rel, fname, lean_fn, uses, datelike):
+        self.rel, self.fname, self.lean_fn, self.uses, self.datelike = rel, fname, lean_fn, uses, datelike
+        self.tmp, self.conts, self.loops = 0, 0, []
+        self.ret = ("opt", "date")
+
+    def w(self, n):
+        return f"{self.rel}:{n.line}"
+
+    def fresh(self):
+        self.tmp += 1
+        return f"tmp{self.tmp}"
+
+    def site(self, n):
+        return f'"WeekRange::{self.fname}:{n.line}"'
+
+    @staticmethod
+    def strip(t):
+        while isinstance(t, tuple) and t[0] == "ref":
+            t = t[1]
+        return t
+
+    # ---- expressions: (lines in front, atom, type); the lines are `bnd (..) fun tmp =>` / `match .. | some tmp =>` prefixes ----
+    def ex(self, n, env, want=None):
+        k = n.kind
+        if k == "paren":
+            return self.ex(n.e, env, want)
+        if k == "var":
+            if n.name not in env:
+                fail(self.w(n), f"unknown variable `{n.name}` (week functions)")
+            return [], env[n.name][0], env[n.name][1]
+        if k == "lit":
+            if n.suffix is not None and n.suffix != want:
+                fail(self.w(n), f"literal suffix `{n.suffix}` does not match the expected type")
+            t = n.suffix or want
+            if t not in WEEK_INTS:
+                fail(self.w(n), "the type of this literal is not determined by its context (week functions)")
+            lo, hi = INT_TYPES[t]
+            if not isinstance(n.value, int) or not lo <= n.value <= hi:
+                fail(self.w(n), f"literal out of range for {t}")
+            return [], str(n.value), t
+        if k == "field":
+            if n.e.kind != "self" or n.name not in ("range", "step"):
+                fail(self.w(n), "only `self.range` / `self.step` are translated field accesses (week functions)")
+            return [], f"self.{n.name}", ("rng", "weeknum") if n.name == "range" else "u8"
+        if k == "method":
+            if n.name in ("start", "end") and not n.args:
+                pre, a, t = self.ex(n.e, env)
+                t = self.strip(t)
+                if not (isinstance(t, tuple) and t[0] == "rng"):
+                    fail(self.w(n), f"`.{n.name}()` on something that is not a `RangeInclusive` (week functions)")
+                return pre, f"{a}.{'start' if n.name == 'start' else '«end»'}", ("ref", t[1])
+            if n.name == "wrapping_contains" and len(n.args) == 1:
+                if ("crate::utils::range", "WrappingRange") not in self.uses:
+                    fail(self.w(n), "`wrapping_contains` is read as `crate::utils::range::WrappingRange`'s, but the file does not import that trait")
+                pre, a, t = self.ex(n.e, env)
+                t = self.strip(t)
+                if not (isinstance(t, tuple) and t[0] == "rng" and t[1] in WEEK_INTS):
+                    fail(self.w(n), "`wrapping_contains` on something that is not a range of integers (week functions)")
+                if n.args[0].kind != "ref":
+                    fail(self.w(n), "the argument of `wrapping_contains` has to be a reference `&x`")
+                pre2, b, t2 = self.ex(n.args[0].e, env, t[1])
+                if self.strip(t2) != t[1]:
+                    fail(self.w(n), f"`wrapping_contains`: the element has type {t2}, the range is over {t[1]}")
+                v = self.fresh()
+                return pre + pre2 + [f"bnd (WrappingRange.wrapping_contains {a} {b}) fun {v} =>"], v, "bool"
+            pre, a, t = self.ex(n.e, env)
+            t = self.strip(t)
+            rty = {"date": "NaiveDate", "isoweek": "IsoWeek", "wd": "Weekday"}.get(t)
+            ent = CHRONO_METHODS.get((rty, n.name))
+            if ent is None or ent[0] != [] or n.args or ent[1] not in WEEK_CHRONO_TY:
+                fail(self.w(n), f"method `.{n.name}(..)` on {t} is outside the translated subset (week functions)")
+            if ent[3] and not self.datelike:
+                fail(self.w(n), f"`.{n.name}()` is read as `chrono::Datelike`'s, but the file has no `use chrono::prelude::Datelike;`")
+            return pre, f"({ent[2]} {a})", WEEK_CHRONO_TY[ent[1]]
+        if k == "deref":
+            pre, a, t = self.ex(n.e, env)
+            if isinstance(t, tuple) and t[0] == "ref":
+                return pre, a, t[1]
+            if t == "weeknum":
+                return pre, f"{a}.v0", "u8"  # `impl Deref for WeekNum` (checked by `week_section`)
+            fail(self.w(n), f"`*` on a value of type {t} is outside the translated subset (week functions)")
+        if k == "cast":
+            pre, a, t = self.ex(n.e, env)
+            t = self.strip(t)
+            to = n.to[1] if isinstance(n.to, tuple) and n.to[0] == "int" else None
+            if t not in WEEK_INTS or to not in WEEK_INTS:
+                fail(self.w(n), "only casts between u8 / u32 / i32 are translated (week functions)")
+            return pre, f"(wrap .{to} {a})", to
+        if k == "chronoconst":
+            ty, lean = CHRONO_CONSTS[n.path]
+            if ty != "Weekday":
+                fail(self.w(n), f"`{n.path}` is outside the translated subset (week functions)")
+            return [], lean, "wd"
+        if k == "call":
+            path = "::".join(n.path)
+            if path == "u32::from" and len(n.args) == 1:
+                pre, a, t = self.ex(n.args[0], env)
+                if self.strip(t) != "u8":
+                    fail(self.w(n), f"`u32::from` of a value of type {t} is outside the translated subset")
+                return pre, a, "u32"
+            if path in CHRONO_CALLS:
+                ptys, rty, lean = CHRONO_CALLS[path]
+                if len(ptys) != len(n.args) or rty not in WEEK_CHRONO_TY or any(p not in WEEK_CHRONO_TY for p in ptys):
+                    fail(self.w(n), f"`{path}` is outside the translated subset (week functions)")
+                if ("chrono", n.path[0]) not in self.uses:
+                    fail(self.w(n), f"`{n.path[0]}` is read as chrono's, but the file does not import it from there")
+                pre, atoms = [], []
+                for a_, p in zip(n.args, ptys):
+                    pp, a, t = self.ex(a_, env, WEEK_CHRONO_TY[p])
+                    if self.strip(t) != WEEK_CHRONO_TY[p]:
+                        fail(self.w(a_), f"argument of `{path}`: expected {p}, found {t}")
+                    pre += pp
+                    atoms.append(a)
+                return pre, f"({lean} {' '.join(atoms)})", WEEK_CHRONO_TY[rty]
+            fail(self.w(n), f"call of `{path}` is outside the translated subset (week functions)")
+        if k == "bin":
+            op = n.op
+            lw = rw = None
+            if n.l.kind == "lit" and n.r.kind == "lit":
+                fail(self.w(n), "an operation on two literals is outside the translated subset (week functions)")
+            if n.l.kind == "lit":
+                pr, b, tr = self.ex(n.r, env)
+                pl, a, tl = self.ex(n.l, env, self.strip(tr))
+            else:
+                pl, a, tl = self.ex(n.l, env)
+                pr, b, tr = self.ex(n.r, env, self.strip(tl))
+            if op in ("<", "<=", ">", ">=", "==", "!="):
+                lop = {"<": "<", "<=": "≤", ">": ">", ">=": "≥", "==": "=", "!=": "≠"}[op]
+                if tl != tr and not (n.l.kind == "lit" or n.r.kind == "lit"):
+                    fail(self.w(n), f"comparison of {tl} with {tr} is outside the translated subset (week functions)")
+                t = self.strip(tl)
+                if t == "weeknum":
+                    # `#[derive(PartialOrd, Ord)]` on the one-field newtype (checked by `week_section`): the order of the field
+                    a, b, t = f"{a}.v0", f"{b}.v0", "u8"
+                if t not in WEEK_INTS + ("date",):
+                    fail(self.w(n), f"comparison of values of type {t} is outside the translated subset (week functions)")
+                return pl + pr, f"(decide ({a} {lop} {b}))", "bool"
+            if op in ("+", "-", "%"):
+                tl, tr = self.strip(tl), self.strip(tr)  # `u8 OP &u8`: std implements the operators for references
+                if tl != tr or tl not in WEEK_INTS:
+                    fail(self.w(n), f"`{op}` on {tl} and {tr} is outside the translated subset (week functions)")
+                if op == "%" and n.r.kind == "lit" and n.r.value != 0:
+                    return pl + pr, f"(Int.tmod {a} {b})", tl  # `%` by a non-zero literal cannot fail
+                v = self.fresh()
+                f = {"+": "add", "-": "sub", "%": "rem"}[op]
+                return pl + pr + [f"bnd ({f} .{tl} {self.site(n)} {a} {b}) fun {v} =>"], v, tl
+            fail(self.w(n), f"operator `{op}` is outside the translated subset (week functions)")
+        if k == "range" and n.incl:
+            pl, a, tl = self.ex(n.l, env)
+            pr, b, tr = self.ex(n.r, env)
+            if tl != tr or tl not in WEEK_INTS:
+                fail(self.w(n), "only `a..=b` over one integer type is translated (week functions)")
+            return pl + pr, f"(RangeInclusive.mk {a} {b})", ("rng", tl)
+        fail(self.w(n), f"this expression ({k}) is outside the translated subset (week functions)")
+
+    # ---- a value that may `return`: every value leaf goes to `k(atom, type)` (lines), every `return e` ends the function ----
+    def val(self, n, env, want, ret_k, k):
+        kind = n.kind
+        if kind == "blockexpr":
+            return self.val(n.b, env, want, ret_k, k)
+        if kind == "block":
+            if n.stmts:
+                fail(self.w(n), "statements inside a value block are outside the translated subset (week functions)")
+            return self.val(n.tail, env, want, ret_k, k)
+        if kind == "return":
+            return self.val(n.e, env, self.ret, ret_k, ret_k)
+        if kind == "none":
+            return k("none", ("opt", None))
+        if kind == "some":
+            pre, a, t = self.ex(n.e, env)
+            return pre + k(f"(some {a})", ("opt", self.strip(t)))
+        if kind == "if":
+            if n.a is None or n.b is None:
+                fail(self.w(n), "an `if` without `else` as a value is outside the translated subset (week functions)")
+            pre, c, t = self.ex(n.c, env)
+            if t != "bool":
+                fail(self.w(n), "the condition is not a `bool`")
+            return pre + [f"if {c} then"] + ["  " + x for x in self.val(n.a, env, want, ret_k, k)] + ["else"] + ["  " + x for x in self.val(n.b, env, want, ret_k, k)]
+        if kind == "call" and n.path == ["u32", "from"] and len(n.args) == 1 and n.args[0].kind == "blockexpr":
+            def k2(a, t):
+                if self.strip(t) != "u8":
+                    fail(self.w(n), f"`u32::from` of a value of type {t} is outside the translated subset")
+                return k(a, "u32")
+            return self.val(n.args[0], env, "u8", ret_k, k2)
+        pre, a, t = self.ex(n, env, want if isinstance(want, str) else None)
+        return pre + k(a, t)
+
+    def ret_k(self, a, t):
+        if not (isinstance(t, tuple) and t[0] == "opt" and t[1] in (None, "date")):
+            fail(self.rel, f"{self.fname}: a returned value has type {t}, the function returns Option<NaiveDate>")
+        return [f".ok {a}"]
+
+    def has_return(self, n):
+        if isinstance(n, Node):
+            return n.kind in ("return", "try") or any(self.has_return(v) for kk, v in n.__dict__.items() if kk != "ty")
+        if isinstance(n, list):
+            return any(self.has_return(x) for x in n)
+        return False
+
+    # ---- statements of the function body (continuation: the statements that follow) ----
+    def stmts(self, ss, tail, env):
+        if not ss:
+            return self.val(tail, env, self.ret, self.ret_k, self.ret_k)
+        s, rest = ss[0], ss[1:]
+        if s.kind == "let":
+            if s.ann is not None:
+                fail(self.w(s), "a type annotation on `let` is outside the translated subset (week functions)")
+            name = lname(s.name)
+            if s.e.kind == "try":
+                pre, a, t = self.ex(s.e.e, env)
+                if t != ("opt", "date"):
+                    fail(self.w(s), "`?` on something that is not an `Option<NaiveDate>` (week functions)")
+                env2 = dict(env)
+                env2[s.name] = (name, "date", s.mut)
+                return pre + [f"match {a} with", "| none => .ok none", f"| some {name} =>"] + self.stmts(rest, tail, env2)
+            if self.has_return(s.e):
+                # the rest of the function is a join point `cont<n>`; the value leaves call it, `return` leaves end the function
+                if s.mut:
+                    fail(self.w(s), "`let mut` with a value that may `return` is outside the translated subset")
+                self.conts += 1
+                cn = f"cont{self.conts}"
+                tybox = []
+
+                def k(a, t):
+                    t = self.strip(t)
+                    if t not in WEEK_INTS:
+                        fail(self.w(s), f"a value of type {t} for `{s.name}` is outside the translated subset")
+                    tybox.append(t)
+                    return [f"{cn} {a}"]
+                body = self.val(s.e, env, None, self.ret_k, k)
+                if len(set(tybox)) != 1:
+                    fail(self.w(s), f"the branches that compute `{s.name}` have different types")
+                env2 = dict(env)
+                env2[s.name] = (name, tybox[0], False)
+                return ([f"let {cn} : {week_lty(tybox[0])} → R (Option Int) := (fun {name} =>"] + ["  " + x for x in self.stmts(rest, tail, env2)]
+                        + ["  )"] + body)
+            pre, a, t = self.ex(s.e, env)
+            if isinstance(t, tuple) and t[0] == "ref":
+                fail(self.w(s), "a `let` that binds a reference is outside the translated subset (week functions)")
+            env2 = dict(env)
+            env2[s.name] = (name, t, s.mut)
+            return pre + [f"let {name} := {a}"] + self.stmts(rest, tail, env2)
+        if s.kind == "exprstmt" and s.e.kind == "if" and getattr(s.e.c, "kind", None) == "weekwhile":
+            return self.while_(s.e.c, rest, tail, env)
+        if s.kind == "exprstmt" and s.e.kind == "if":
+            # `if c { return e; }`: the early return
+            i = s.e
+            if not (i.b is not None and i.b.kind == "block" and not i.b.stmts and i.b.tail.kind == "unit" and i.a.kind == "block" and not i.a.stmts and i.a.tail.kind == "return"):
+                fail(self.w(s), "only `if c { return e; }` is a translated statement-level `if` (week functions)")
+            pre, c, t = self.ex(i.c, env)
+            if t != "bool":
+                fail(self.w(s), "the condition is not a `bool`")
+            return pre + [f"if {c} then"] + ["  " + x for x in self.val(i.a.tail, env, self.ret, self.ret_k, self.ret_k)] + ["else"] + self.stmts(rest, tail, env)
+        fail(self.w(s), f"this statement ({s.kind}) is outside the translated subset (week functions)")
+
+    def reads(self, n, acc):
+        if isinstance(n, Node):
+            if n.kind == "var":
+                acc.append(n.name)
+            if n.kind == "self":
+                acc.append("self")
+            for kk, v in n.__dict__.items():
+                if kk != "ty":
+                    self.reads(v, acc)
+        elif isinstance(n, list):
+            for x in n:
+                self.reads(x, acc)
+
+    def while_(self, wn, rest, tail, env):
+        """`while c { x = e; }` with ONE state variable (a `let mut` local); `?` inside the body ends the function with `None`"""
+        if self.loops:
+            fail(self.w(wn), "a second loop is outside the translated subset (week functions)")
+        body = wn.body
+        if body.tail.kind != "unit" or len(body.stmts) != 1 or body.stmts[0].kind != "assign" or body.stmts[0].op is not None or body.stmts[0].place.kind != "var":
+            fail(self.w(wn), "only `while c { x = e; }` is a translated loop (week functions)")
+        a_ = body.stmts[0]
+        sv = a_.place.name
+        if sv not in env or not env[sv][2]:
+            fail(self.w(a_), f"`{sv}` is not a `let mut` local")
+        sty = env[sv][1]
+        acc = []
+        self.reads(wn, acc)
+        others = []
+        for x in acc:
+            if x != sv and x not in others:
+                if x == "self" or x not in env:
+                    fail(self.w(wn), f"the loop reads `{x}`, which is outside the translated subset (week functions)")
+                if env[x][2]:
+                    fail(self.w(wn), f"the loop reads the mutable variable `{x}` without writing it: outside the translated subset")
+                others.append(x)
+        lenv = {sv: (lname(sv), sty, True)}
+        for x in others:
+            lenv[x] = (lname(x), env[x][1], False)
+        pre, c, t = self.ex(wn.c, lenv)
+        if t != "bool":
+            fail(self.w(wn), "the loop condition is not a `bool`")
+        lname_ = f"{self.lean_fn}.loop1"
+        args = " ".join([lname(sv)] + [lname(x) for x in others])
+        flow = f"Flow (Option Int) {week_lty(sty)}"
+        if a_.e.kind == "try":
+            p2, e, t2 = self.ex(a_.e.e, lenv)
+            if t2 != ("opt", sty):
+                fail(self.w(a_), f"`?` on a value of type {t2}, the variable has type {sty}")
+            v = self.fresh()
+            step = p2 + [f"match {e} with", f"| none => .ok (.ret none {lname(sv)})", f"| some {v} =>", f"let {lname(sv)} := {v}"]
+        else:
+            p2, e, t2 = self.ex(a_.e, lenv, sty if isinstance(sty, str) else None)
+            if self.strip(t2) != sty:
+                fail(self.w(a_), f"assignment of a value of type {t2} to a variable of type {sty}")
+            step = p2 + [f"let {lname(sv)} := {e}"]
+        L = [f"/-- the loop `while ..` of `WeekRange::{self.fname}` ({self.rel}:{wn.line}); `fuel` = the number of iterations allowed; `.ret v s` = `return v` "
+             f"(a failing `?`) inside the body, `.next s` = the condition failed; `s` = {sv} -/",
+             f"def {lname_} (fuel : Nat) " + " ".join(f"({lname(x)} : {week_lty(lenv[x][1])})" for x in [sv] + others) + f" : R ({flow}) :=",
+             "  match fuel with", "  | 0 => .error (.panic loopFuelExhausted)", "  | fuel + 1 =>"]
+        L += ["    " + x for x in pre + [f"if {c} then"] + ["  " + x for x in step + [f"{lname_} fuel {args}"]] + ["else", f"  .ok (.next {lname(sv)})"]]
+        self.loops.append(L)
+        v, r = self.fresh(), self.fresh()
+        return ([f"bnd ({lname_} fuel {args}) fun {v} =>", f"match {v} with", f"| .ret {r} {lname(sv)} =>", f"  .ok {r}", f"| .next {lname(sv)} =>"]
+                + self.stmts(rest, tail, env))
+
+
+def week_find(tk, words):
+    texts = [x.text for x in tk]
+    return any(texts[j:j + len(words)] == words for j in range(len(texts) - len(words) + 1))
+
+
+def week_section(toks, raw):
+    """the Lean text (lines) of the week targets"""
+    for rel in (F_DF, F_DAY, F_RANGE):
+        if rel in EXCLUDED_FILES:
+            fail(rel, "the main pipeline left this file out; the week functions use its types and `wrapping_contains`")
+    tk, dtk = toks(F_DF), toks(F_DAY)
+    for is_raw, text, what in WEEK_DECLS:
+        if not week_find(raw(F_DAY) if is_raw else dtk, text.split()):
+            fail(F_DAY, f"{what} not found (tables of the week extension)")
+    uses = file_uses(tk)
+    if ALIASES[F_DF]["ds"] != "opening_hours_syntax::rules::day" or not has_use_as(tk, ALIASES[F_DF]["ds"], "ds"):
+        fail(F_DF, "`ds::` is read as `opening_hours_syntax::rules::day::`, but the file does not import it under that name")
+    datelike = ("chrono::prelude", "Datelike") in uses
+    name = "next_change_hint"
+    at = find_impl_fns(tk, F_DF, "WeekRange", None, [name], WEEK_HDR.split())[name]
+    got = d3_sig_text(tk, at)
+    if got.rstrip() != WEEK_SIG:
+        fail(f"{F_DF}:{tk[at].line}", f"the signature of `WeekRange::{name}` changed: expected `{WEEK_SIG}`, found `{got}` (tables of the week extension)")
+    p = WeekParser(tk, F_DF, {"WeekRange"}, uses=std_uses(tk), enums=set(), aliases={"ds"}, modelled=True, penums=set())
+    p.i = at
+    node = p.fn()
+    (dname, _), (cname, _) = node.params
+    g = WeekGen(F_DF, name, name, uses, datelike)
+    env = {dname: (lname(dname), "date", False)}
+    body = g.stmts(node.body.stmts, node.body.tail, env)
+    if not g.loops:
+        fail(f"{F_DF}:{node.line}", f"`WeekRange::{name}` has no loop any more: the parameter `fuel` of the tables of the week extension is stale")
+    L = ["/-! ### [week extension] `impl DateFilter for ds::WeekRange` `next_change_hint` (opening-hours/src/filter/date_filter.rs), chrono mode -/", "",
+         "namespace WeekRange", ""]
+    for lp in g.loops:
+        L += lp + [""]
+    L += [f"/-- `<L> WeekRange::{name}(&self, {dname}: NaiveDate, {cname}: &Context<L>) -> Option<NaiveDate>` ({F_DF}:{node.line}); `fuel` = the number of "
+          f"iterations the loop is allowed (OH/Props/ArithC01Week.lean: 2 suffice); the context is not read -/",
+          f"def {name} (fuel : Nat) (self : WeekRange) ({lname(dname)} : Int) : R (Option Int) :="]
+    L += ["  " + x for x in body]
+    L += ["", "end WeekRange", ""]
+    return L
+
+# ---- [week extension], second part: `count_days_in_month` of opening-hours/src/utils/dates.rs (chrono mode) ----
+# `let Some(x) = e else { return v; };`, `OPT.expect("..")` (the `none => .error (.panic "..")` arm), `a - b` on dates (the
+# number of days), `.num_days()`, `.try_into().expect("..")` towards the function's result type (the range test), and two
+# chrono calls translated ONLY in the shape the code has: `d.checked_add_months(Months::new(1))` and `d.with_day(1)`
+# (`Chrono.checked_add_months_one` / `Chrono.with_day_one` of OH/Model/RustChrono.lean).
+WEEK_DATES_SIG = "fn count_days_in_month ( NaiveDate ) -> u8"
+
+
+class WeekDatesGen(WeekGen):
+    def __init__(self, rel, fname, uses):
+        WeekGen.__init__(self, rel, fname, fname, uses, ("chrono", "Datelike") in uses)
+        self.ret = "u8"
+
+    def site(self, n):
+        return f'"{self.fname}:{n.line}"'
+
+    def ret_k(self, a, t):
+        if self.strip(t) != "u8":
+            fail(self.rel, f"{self.fname}: a returned value has type {t}, the function returns u8")
+        return [f".ok {a}"]
+
+    def panic(self, n):
+        if len(n.args) != 1 or n.args[0].kind != "str" or '"' in n.args[0].value or "\\" in n.args[0].value:
+            fail(self.w(n), "`.expect(..)` takes one plain string literal (week functions)")
+        return f'.error (.panic "{n.args[0].value}")'
+
+    def ex(self, n, env, want=None):
+        k = n.kind
+        if k == "method" and n.name == "expect":
+            if n.e.kind == "method" and n.e.name == "try_into" and not n.e.args:
+                pre, a, t = self.ex(n.e.e, env)
+                if t != "i64" or want not in WEEK_INTS:
+                    fail(self.w(n), "`.try_into().expect(..)` is translated from `i64` towards a known integer type only (week functions)")
+                v = self.fresh()
+                return pre + [f"match tryInto .{want} {a} with", f"| none => {self.panic(n)}", f"| some {v} =>"], v, want
+            pre, a, t = self.ex(n.e, env)
+            if not (isinstance(t, tuple) and t[0] == "opt"):
+                fail(self.w(n), f"`.expect(..)` on a value of type {t} is outside the translated subset (week functions)")
+            v = self.fresh()
+            return pre + [f"match {a} with", f"| none => {self.panic(n)}", f"| some {v} =>"], v, t[1]
+        if k == "method" and n.name in ("checked_add_months", "with_day"):
+            pre, a, t = self.ex(n.e, env)
+            if t != "date" or len(n.args) != 1:
+                fail(self.w(n), f"`.{n.name}(..)` on a value of type {t} is outside the translated subset (week functions)")
+            if ("chrono", "NaiveDate") not in self.uses:
+                fail(self.w(n), "`NaiveDate` is read as chrono's, but the file does not import it from there")
+            arg = n.args[0]
+            if n.name == "with_day":
+                if not self.datelike:
+                    fail(self.w(n), "`.with_day(..)` is read as `chrono::Datelike`'s, but the file does not import that trait")
+                if arg.kind != "lit" or arg.value != 1 or arg.suffix is not None:
+                    fail(self.w(n), "only `.with_day(1)` is translated (week functions)")
+                return pre, f"(Chrono.with_day_one {a})", ("opt", "date")
+            if ("chrono", "Months") not in self.uses:
+                fail(self.w(n), "`Months` is read as chrono's, but the file does not import it from there")
+            if not (arg.kind == "call" and arg.path == ["Months", "new"] and len(arg.args) == 1 and arg.args[0].kind == "lit"
+                    and arg.args[0].value == 1 and arg.args[0].suffix is None):
+                fail(self.w(n), "only `.checked_add_months(Months::new(1))` is translated (week functions)")
+            return pre, f"(Chrono.checked_add_months_one {a})", ("opt", "date")
+        if k == "method" and n.name == "num_days" and not n.args:
+            pre, a, t = self.ex(n.e, env)
+            if t != "delta":
+                fail(self.w(n), f"`.num_days()` on a value of type {t} is outside the translated subset (week functions)")
+            return pre, a, "i64"
+        if k == "bin" and n.op == "-":
+            pl, a, tl = self.ex(n.l, env)
+            if tl == "date":
+                pr, b, tr = self.ex(n.r, env)
+                if tr != "date":
+                    fail(self.w(n), f"`NaiveDate - {tr}` is outside the translated subset (week functions)")
+                return pl + pr, f"({a} - {b})", "delta"  # `NaiveDate - NaiveDate`: the signed duration, kept as its number of days
+        return WeekGen.ex(self, n, env, want)
+
+    def stmts(self, ss, tail, env):
+        if ss and ss[0].kind == "letsome":
+            s = ss[0]
+            if s.is_res or s.pann is not None:
+                fail(self.w(s), "only `let Some(x) = e else { return v; };` is translated (week functions)")
+            pre, a, t = self.ex(s.e, env)
+            if not (isinstance(t, tuple) and t[0] == "opt"):
+                fail(self.w(s), f"`let Some(..) =` on a value of type {t}")
+            env2 = dict(env)
+            env2[s.name] = (lname(s.name), t[1], False)
+            orelse = self.val(s.orelse, env, self.ret, self.ret_k, self.ret_k)
+            return pre + [f"match {a} with", "| none =>"] + ["  " + x for x in orelse] + [f"| some {lname(s.name)} =>"] + self.stmts(ss[1:], tail, env2)
+        if not ss:
+            return self.val(tail, env, self.ret, self.ret_k, self.ret_k)
+        return WeekGen.stmts(self, ss, tail, env)
+
+
+def week_dates_section(toks):
+    """the Lean text (lines) of `count_days_in_month`"""
+    if F_DATES in EXCLUDED_FILES:
+        fail(F_DATES, "the main pipeline left this file out")
+    tk = toks(F_DATES)
+    uses = file_uses(tk)
+    name = "count_days_in_month"
+    at = find_impl_fns(tk, F_DATES, None, None, [name])[name]
+    got = d3_sig_text(tk, at)
+    if got.rstrip() != WEEK_DATES_SIG:
+        fail(f"{F_DATES}:{tk[at].line}", f"the signature of `{name}` changed: expected `{WEEK_DATES_SIG}`, found `{got}` (tables of the week extension)")
+    p = WeekParser(tk, F_DATES, set(), uses=std_uses(tk), enums=set(), aliases=set(), modelled=True, penums=set())
+    p.i = at
+    node = p.fn()
+    ((dname, _),) = node.params
+    g = WeekDatesGen(F_DATES, name, uses)
+    body = g.stmts(node.body.stmts, node.body.tail, {dname: (lname(dname), "date", False)})
+    if g.loops or g.conts:
+        fail(f"{F_DATES}:{node.line}", f"`{name}`: a loop / a nested `return` here is outside the translated subset")
+    return ["/-! ### [week extension] `count_days_in_month` (opening-hours/src/utils/dates.rs), chrono mode -/", "", "namespace Dates", "",
+            f"/-- `{name}({dname}: NaiveDate) -> u8` ({F_DATES}:{node.line}) -/",
+            f"def {name} ({lname(dname)} : Int) : R Int :="] + ["  " + x for x in body] + ["", "end Dates", ""]
+# ---- end of [week extension] ---------------------------------------------------------------------
+
+# [iter extension] seventh increment (notes/RS2LEAN7-iter.md): the point queries of opening-hours/src/opening_hours.rs on
+# top of the naive iterator: `OpeningHours::state`, `is_open`, `is_closed`, `is_unknown` (`next_change` is the tz-pipe
+# section's).  Front end = `TzParser` / `TzPipeGen` of the tz extension plus: the types `RuleKind` / `bool`; `RuleKind::X`
+# as a value (a named parameter `RuleKind_X : Kind`, the variant has to exist in the enum); a plain `if c { .. return v; }`
+# STATEMENT (no `else`, the block has to end in `return`); `NaiveDateTime + Duration::minutes/seconds(LIT)` = chrono's
+# `checked_add_signed(rhs).expect("`NaiveDateTime + TimeDelta` overflowed")`; `self.iter_range_naive(a, b).next()` on the
+# FRESH iterator = the named, effectful parameter `ext_iter_range_naive_first` (the first item the naive iterator yields:
+# nothing behind it is evaluated, as in Rust); `opt.map(|x| PURE)`, `opt.unwrap_or(PURE)`; `self.state(t)` = a CALL of the
+# translated `state` (linked).  Anything else: an error naming file:line.
+ITER_TARGETS = ["state", "is_open", "is_closed", "is_unknown"]
+ITER_KIND_ENUM = ("opening-hours-syntax/src/rules/mod.rs", "RuleKind")
+TZ_EXT.update({
+    "ext_iter_range_naive_first": (f"Int → Int → R (Option ({TZ_DTR_N}))",
+                                   "`self.iter_range_naive(from, to).next()` on the fresh iterator (not translated here): the FIRST item the naive iterator yields, effectful (what its `new` / first `next` panic on propagates; later items are not evaluated)"),
+})
+
+
+class IterParser(TzParser):
+    def type_(self):
+        tk = self.peek()
+        if tk.text in ("RuleKind", "bool") and self.peek(1).text != "::":
+            self.i += 1
+            return ("kind",) if tk.text == "RuleKind" else ("bool",)
+        return TzParser.type_(self)
+
+    def stmt(self, in_block):
+        tk = self.peek()
+        if in_block and self.at("if") and self.peek(1).text != "let":
+            save = self.i
+            self.i += 1
+            c = self.expr()
+            body = self.block()
+            if not self.at("else"):
+                return Node("ifs", tk.line, c=c, body=body)
+            self.i = save  # `if .. else ..`: a value (the existing front end)
+        return TzParser.stmt(self, in_block)
+
+    def cmp_(self):
+        a = self.add_()
+        tk = self.peek()
+        if tk.kind == "op" and tk.text in ("==", "!=", "<", "<=", ">", ">="):
+            self.i += 1
+            b = self.add_()
+            t3 = self.peek()
+            if t3.kind == "op" and t3.text in ("==", "!=", "<", "<=", ">", ">="):
+                fail(self.where(t3), f"`{t3.text}` after a comparison is outside the translated subset (iter functions)")
+            return Node("cmp", tk.line, op=tk.text, a=a, b=b)
+        if tk.kind == "op" and tk.text in ("+", "-", "*", "/", "%", "||", "..=", "[", "|", "^", "<<", ">>", "!"):
+            fail(self.where(tk), f"`{tk.text}` is outside the translated subset (iter functions)")
+        if tk.kind == "id" and tk.text == "as":
+            fail(self.where(tk), "`as` is outside the translated subset (iter functions)")
+        return a
+
+    def add_(self):
+        a = self.post()
+        tk = self.peek()
+        if tk.kind == "op" and tk.text == "+":
+            self.i += 1
+            return Node("add", tk.line, a=a, b=self.post())
+        return a
+
+    def prim(self):
+        tk = self.peek()
+        if tk.kind == "id" and tk.text == "RuleKind" and self.peek(1).text == "::" and self.peek(2).kind == "id" and self.peek(3).text != "(":
+            self.i += 3
+            return Node("kindconst", tk.line, name=self.peek(-1).text)
+        return TzParser.prim(self)
+
+
+class IterGen(TzPipeGen):
+    def __init__(self, f, ns, node, variants, uses, fnsigs):
+        TzPipeGen.__init__(self, f, ns, node, None)
+        self.variants, self.uses, self.fnsigs = variants, uses, fnsigs
+
+    def cg(self, e, env, k):
+        kd = e.kind
+        if kd == "kindconst":
+            if e.name not in self.variants:
+                fail(self.w(e), f"`RuleKind::{e.name}` is not a variant of `enum RuleKind` ({ITER_KIND_ENUM[0]})")
+            name = f"RuleKind_{e.name}"
+            TZ_EXT.setdefault(name, ("Kind", f"the constant `RuleKind::{e.name}`"))
+            return k(self.ext(name), ("kind",))
+        if kd == "add":
+            def ka(a, ta):
+                def kb(b, tb):
+                    if (ta, tb) != (("ndt",), ("delta",)):
+                        fail(self.w(e), f"`+` is translated as `NaiveDateTime + TimeDelta` only, found {tz_lty(ta)} + {tz_lty(tb)} (iter functions)")
+                    v = self.tmp()
+                    return [f"match TzChrono.ndt_checked_add_signed {a} {b} with", "| none => .error (.panic \"`NaiveDateTime + TimeDelta` overflowed\")",
+                            f"| some {v} =>"] + k(v, ("ndt",))
+                return self.cg(e.b, env, kb)
+            return self.cg(e.a, env, ka)
+        if kd == "pathcall" and e.ty == "Duration":
+            if ("chrono", "Duration") not in self.uses:
+                fail(self.w(e), "`Duration` is read as `chrono::Duration` (= `TimeDelta`): `use chrono::Duration;` not found")
+            if e.name in ("seconds", "minutes") and len(e.args) == 1 and e.args[0].kind == "int" and e.args[0].v < 10 ** 12:
+                return k(f"(TzChrono.{e.name} {e.args[0].v})", ("delta",))
+            fail(self.w(e), f"the call `Duration::{e.name}(..)` is outside the translated subset (iter functions: `Duration::seconds/minutes(LITERAL)`)")
+        if kd == "method" and e.name == "next" and not e.args and e.e.kind == "method" and e.e.e.kind == "self" and e.e.name == "iter_range_naive" \
+                and len(e.e.args) == 2:
+            def kargs(av):
+                if [t for _, t in av] != [("ndt",), ("ndt",)]:
+                    fail(self.w(e), "`self.iter_range_naive(from, to)`: argument types")
+                v = self.tmp()
+                return [f"bnd ({self.ext('ext_iter_range_naive_first')} {av[0][0]} {av[1][0]}) fun {v} =>"] + k(v, ("opt", ("dtr", ("ndt",))))
+            return self.cg_args(e.e.args, env, [], kargs)
+        if kd == "method" and e.name == "map" and len(e.args) == 1 and e.args[0].kind == "closure":
+            cl = e.args[0]
+
+            def kr(r, tr):
+                if tr[0] != "opt" or len(cl.params) != 1 or cl.body.stmts or cl.body.tail is None:
+                    fail(self.w(e), "`.map(|x| EXPR)` is translated on an `Option`, with a one-parameter, single-expression closure (iter functions)")
+                if cl.params[0] in env:
+                    fail(self.w(cl), f"the closure parameter `{cl.params[0]}` shadows a variable in scope (iter functions)")
+                env2 = dict(env)
+                env2[cl.params[0]] = (tr[1], False)
+                b, tb = self.pure(cl.body.tail, env2)
+                return k(f"(Option.map (fun ({lname(cl.params[0])} : {tz_lty(tr[1])}) => {b}) {r})", ("opt", tb))
+            return self.cg(e.e, env, kr)
+        if kd == "method" and e.e.kind == "self" and e.name in self.fnsigs:
+            sig = self.fnsigs[e.name]
+
+            def kargs(av):
+                if [t for _, t in av] != sig["params"]:
+                    fail(self.w(e), f"the call of `{e.name}`: argument types")
+                for x in sig["externs"]:
+                    self.ext(x)
+                v = self.tmp()
+                args = "".join(f" {x}" for x, _ in av) + "".join(f" ({x} := {x})" for x in sig["externs"])
+                return [f"bnd ({sig['lean']}{args}) fun {v} =>"] + k(v, sig["ret"])
+            return self.cg_args(e.args, env, [], kargs)
+        return TzPipeGen.cg(self, e, env, k)
+
+    def method(self, e, r, tr, av, k):
+        if tr[0] == "opt" and e.name == "unwrap_or" and [t for _, t in av] == [tr[1]]:
+            return k(f"(Option.getD {r} {av[0][0]})", tr[1])  # the argument is a value (evaluated before the call, as in Rust)
+        return TzPipeGen.method(self, e, r, tr, av, k)
+
+    def diverges(self, blk):
+        return TzPipeGen.diverges(self, blk)
+
+    def stmts(self, blk, i, env, frame, k):
+        if i < len(blk.stmts) and blk.stmts[i].kind == "ifs":
+            self.frame = frame
+            s = blk.stmts[i]
+            if not self.diverges(s.body):
+                fail(self.w(s), "the block of an `if` statement without `else` has to end in `return` (iter functions)")
+
+            def kc(c, tc):
+                if tc != ("bool",):
+                    fail(self.w(s), "the condition is not a `bool`")
+                inner = self.block(s.body, env, frame, None)
+                return [f"if {c} then ("] + self.ind(inner) + ["  )", "else ("] + self.ind(self.stmts(blk, i + 1, env, frame, k)) + ["  )"]
+            return self.cg(s.c, env, kc)
+        return TzPipeGen.stmts(self, blk, i, env, frame, k)
+
+    def binder_for(self, sig):
+        tps = [t for t in ("L", "DT", "Kind", "Comments") if re.search(rf"(?<![A-Za-z0-9_.]){t}(?![A-Za-z0-9_])", sig)]
+        return "{" + " ".join(tps) + " : Type} " + ("[DecidableEq Kind] " if "Kind" in tps else "")
+
+    def gen(self):
+        f = self.node
+        env = {pn: (pt, mut) for pn, pt, mut in f.params}
+        self.frame = {"kind": "fn", "state": []}
+        body = self.block(f.body, env, self.frame, None)
+        if self.defs or self.fuel:
+            fail(self.w(f), "loops are outside the translated subset (iter functions)")
+        exts = list(self.externs)
+        ps = " ".join(f"({lname(pn)} : {tz_lty(pt)})" for pn, pt, _ in f.params)
+        rs = {"kind": "RuleKind", "bool": "bool"}
+        sig = f"`OpeningHours::{f.name}(&self, " + ", ".join(f"{pn}: L::DateTime" for pn, _, _ in f.params) + f") -> {rs[f.ret[0]]}`"
+        L = [f"/-- {sig} ({self.f}:{f.line})" + "".join(f"; {x} = {TZ_EXT[x][1]}" for x in exts) + " -/",
+             f"def {self.lean_name} {self.binder_for(ps + self.ext_params(exts))}{ps}{self.ext_params(exts)} : R {tz_lty(f.ret, False)} :="]
+        return L + self.ind(self.finish(body))
+
+
+def iter_section(toks):
+    tk = toks(F_OH)
+    uses = file_uses(tk)
+    for imp in [("chrono", "NaiveDateTime"), ("crate::localization", "Localize"), ("opening_hours_syntax::rules", "RuleKind")]:
+        if imp not in uses:
+            fail(F_OH, f"`use {imp[0]}::{imp[1]};` not found: the name `{imp[1]}` is read as that item")
+    texts = [x.text for x in tk]
+    if not any(texts[i : i + 6] == ["pub", "const", "DATE_END", ":", "NaiveDateTime", "="] for i in range(len(texts) - 6)):
+        fail(F_OH, "`pub const DATE_END: NaiveDateTime = ..` not found")
+    rel, en = ITER_KIND_ENUM
+    rt = toks(rel)
+    if not {"PartialEq", "Eq"} <= derives_of(toks.raw(rel), en):
+        fail(rel, f"`{en}` has to derive PartialEq, Eq (`==` is translated as equality)")
+    rtexts = [x.text for x in rt]
+    hits = [i for i in range(len(rtexts) - 3) if rtexts[i : i + 3] == ["enum", en, "{"]]
+    if len(hits) != 1:
+        fail(rel, f"`enum {en} {{` not found (or found twice)")
+    j, variants = hits[0] + 3, []
+    while rtexts[j] != "}":
+        if rt[j].kind != "id" or rtexts[j + 1] not in (",", "}"):
+            fail(f"{rel}:{rt[j].line}", f"`enum {en}`: only plain variants are translated")
+        variants.append(rtexts[j])
+        j += 2 if rtexts[j + 1] == "," else 1
+    L = ["/-! ### [iter extension] the point queries of opening-hours/src/opening_hours.rs (`state`, `is_open`, `is_closed`, `is_unknown`) -/", "",
+         "namespace Localize", ""]
+    where = find_impl_fns(tk, F_OH, "OpeningHours", None, ITER_TARGETS, header=TZ_OH_HEADER)
+    fnsigs = {}
+    for rname in ITER_TARGETS:
+        p = IterParser(tk, F_OH, "ldt")
+        p.i = where[rname]
+        node = p.fn()
+        g = IterGen(F_OH, "OpeningHours", node, variants, uses, fnsigs)
+        L += g.gen() + [""]
+        fnsigs[rname] = dict(lean=f"OpeningHours.{rname}", params=[pt for _, pt, _ in node.params], ret=node.ret, externs=list(g.externs))
+    L += ["end Localize", ""]
+    return L
+
+# [iter extension], second part: `<TimeDomainIterator as Iterator>::next` (opening_hours.rs).  `&mut self` = the struct passed
+# in and returned (`R (item × TimeDomainIterator)`); the `Peekable<crate::schedule::IntoIter>` field = the list of what is
+# left (the convention of the schedule extension: `peek()` = `List.head?`); `NaiveDate` = its day number, `NaiveTime` = its
+# nanosecond of the day, `NaiveDateTime::new(d, t)` = `d * 86 400·10⁹ + t` (the representation of OH/Model/RustTz.lean);
+# `NaiveDateTime - NaiveDateTime` = the difference of the counts (`signed_duration_since`); `ExtendedTime` ABSTRACT (`Time`),
+# its `try_into()` to `NaiveTime` the named parameter `ext_extended_time_try_into_naive_time` (`Err(())` = `none`; `.expect(m)`
+# panics with `m: ()`); `self.consume_until_next_kind(k);` the named, effectful parameter `ext_consume_until_next_kind`
+# (NOT translated: see the note); `self.opening_hours.ctx.approx_bound_interval_size` a named function of the abstract
+# `OpeningHours<L>` value (`OH`).  New statement forms: `if let Some(x) = e { .. } else { .. }` as the body of the function,
+# `self.method(args);` as a statement.
+TDI_STRUCT = ["pub", "struct", "TimeDomainIterator", "<", "L", ":", "Clone", "+", "Localize", ">", "{", "opening_hours", ":", "OpeningHours", "<", "L", ">", ",",
+              "curr_date", ":", "NaiveDate", ",", "curr_schedule", ":", "Peekable", "<", "crate", "::", "schedule", "::", "IntoIter", ">", ",",
+              "end_datetime", ":", "NaiveDateTime", ",", "}"]
+TDI_ITER_HEADER = ["impl", "<", "L", ":", "Localize", ">", "Iterator", "for", "TimeDomainIterator", "<", "L", ">"]
+TDI_LTY = "TimeDomainIterator Time Kind Comments OH"
+TZ_LTY.update({"tdi": TDI_LTY, "tr": "Sched.TimeRange Time Kind Comments", "time": "Time", "oh": "OH"})
+TZ_EXT.update({
+    "ext_consume_until_next_kind": (f"{TDI_LTY} → Kind → R ({TDI_LTY})", "`TimeDomainIterator::consume_until_next_kind(&mut self, curr_kind)` (not translated), effectful: the iterator after the call"),
+    "ext_extended_time_try_into_naive_time": ("Time → Option Int", "`<ExtendedTime as TryInto<NaiveTime>>::try_into(self) -> Result<NaiveTime, ()>` (extended_time.rs; `Err(())` = `none`)"),
+    "ext_oh_approx_bound_interval_size": ("OH → Option Int", "the field `.ctx.approx_bound_interval_size : Option<TimeDelta>` of the abstract `OpeningHours<L>` value"),
+    "ExtendedTime_MIDNIGHT_00": ("Time", "the constant `ExtendedTime::MIDNIGHT_00`"),
+})
+_tz_lty_before_tdi = tz_lty
+
+
+def tz_lty(t, top=True):  # noqa: F811  [iter extension]
+    if t[0] in ("tdi", "tr"):
+        return TZ_LTY[t[0]] if top else f"({TZ_LTY[t[0]]})"
+    if t[0] in ("plist", "resunit"):
+        s = f"{'List' if t[0] == 'plist' else 'Option'} {tz_lty(t[1], False)}"
+        return s if top else f"({s})"
+    return _tz_lty_before_tdi(t, top)
+
+
+class TdiParser(IterParser):
+    def type_(self):
+        if [self.peek(k).text for k in range(3)] == ["Self", "::", "Item"]:
+            self.i += 3
+            return ("dtr", ("ndt",))
+        return IterParser.type_(self)
+
+    def fn(self):
+        line = self.eat("fn").line
+        name = self.ident()
+        self.eat("(")
+        self.eat("&")
+        self.eat("mut")
+        self.eat("self")
+        self.eat(")")
+        self.eat("->")
+        ret = self.type_()
+        return Node("fn", line, name=name, params=[], ret=ret, body=self.block(), mut_self=True)
+
+    def stmt(self, in_block):
+        tk = self.peek()
+        if in_block and self.at("if") and self.peek(1).text == "let":
+            save = self.i
+            self.i += 2
+            self.eat("Some")
+            self.eat("(")
+            name = self.ident()
+            self.eat(")")
+            self.eat("=")
+            scrut = self.expr()
+            body = self.block()
+            if self.at("else"):
+                self.i += 1
+                if self.at("if"):
+                    fail(self.where(), "`else if` is outside the translated subset (iter functions)")
+                return Node("ifletelse", tk.line, name=name, scrut=scrut, body=body, els=self.block())
+            self.i = save
+        if in_block and self.at("self"):
+            save = self.i
+            e = self.expr()
+            if self.at(";") and e.kind == "method" and e.e.kind == "self":
+                self.i += 1
+                return Node("selfcall", tk.line, e=e)
+            self.i = save
+        return IterParser.stmt(self, in_block)
+
+    def add_(self):
+        a = self.post()
+        tk = self.peek()
+        if tk.kind == "op" and tk.text in ("+", "-"):
+            self.i += 1
+            return Node("add" if tk.text == "+" else "sub", tk.line, a=a, b=self.post())
+        return a
+
+    def cmp_(self):
+        if self.peek(1).kind == "op" and self.peek(1).text == "-":
+            pass
+        return IterParser.cmp_(self)
+
+    def prim(self):
+        tk = self.peek()
+        if tk.kind == "id" and tk.text == "ExtendedTime" and self.peek(1).text == "::" and self.peek(2).kind == "id" and self.peek(3).text not in ("(", "::"):
+            self.i += 3
+            return Node("timeconst", tk.line, name=self.peek(-1).text)
+        return IterParser.prim(self)
+
+
+class TdiGen(IterGen):
+    def fields_of(self, t):
+        if t[0] == "tdi":
+            return {"opening_hours": ("oh",), "curr_date": ("date",), "curr_schedule": ("plist", ("tr",)), "end_datetime": ("ndt",)}
+        if t[0] == "tr":
+            return {"range": ("range", ("time",)), "kind": ("kind",), "comments": ("comm",)}
+        return IterGen.fields_of(self, t)
+
+    def cg(self, e, env, k):
+        kd = e.kind
+        if kd == "self":
+            return k("self", ("tdi",))
+        if kd == "timeconst":
+            if e.name not in self.time_consts:
+                fail(self.w(e), f"`ExtendedTime::{e.name}` is not a constant of extended_time.rs that is translated here (iter functions)")
+            TZ_EXT.setdefault(f"ExtendedTime_{e.name}", ("Time", f"the constant `ExtendedTime::{e.name}`"))
+            return k(self.ext(f"ExtendedTime_{e.name}"), ("time",))
+        if kd == "field" and e.name == "approx_bound_interval_size" and e.e.kind == "field" and e.e.name == "ctx":
+            def ko(a, t):
+                if t != ("oh",):
+                    fail(self.w(e), "`.ctx.approx_bound_interval_size` is translated on the `opening_hours` field only (iter functions)")
+                return k(f"({self.ext('ext_oh_approx_bound_interval_size')} {a})", ("opt", ("delta",)))
+            return self.cg(e.e.e, env, ko)
+        if kd == "sub":
+            def ka(a, ta):
+                def kb(b, tb):
+                    if (ta, tb) != (("ndt",), ("ndt",)):
+                        fail(self.w(e), f"`-` is translated as `NaiveDateTime - NaiveDateTime` only, found {tz_lty(ta)} - {tz_lty(tb)} (iter functions)")
+                    return k(f"({a} - {b})", ("delta",))
+                return self.cg(e.b, env, kb)
+            return self.cg(e.a, env, ka)
+        if kd == "cmp":
+            def ka(a, ta):
+                def kb(b, tb):
+                    if ta != tb or ta[0] not in ("ndt", "kind", "delta", "date") or (ta[0] == "kind" and e.op not in ("==", "!=")):
+                        fail(self.w(e), f"`{e.op}` between {tz_lty(ta)} and {tz_lty(tb)} is outside the translated subset (iter functions)")
+                    op = {"==": "=", "!=": "≠", "<": "<", "<=": "≤", ">": ">", ">=": "≥"}[e.op]
+                    return k(f"(decide ({a} {op} {b}))", ("bool",))
+                return self.cg(e.b, env, kb)
+            return self.cg(e.a, env, ka)
+        if kd == "pathcall" and f"{e.ty}::{e.name}" == "NaiveDateTime::new" and len(e.args) == 2:
+            def kargs(av):
+                if [t for _, t in av] != [("date",), ("ntime",)]:
+                    fail(self.w(e), "`NaiveDateTime::new(date, time)`: argument types")
+                return k(f"({av[0][0]} * 86400000000000 + {av[1][0]})", ("ndt",))
+            return self.cg_args(e.args, env, [], kargs)
+        return IterGen.cg(self, e, env, k)
+
+    def method(self, e, r, tr, av, k):
+        name = e.name
+        if tr[0] == "plist" and name == "peek" and not av:
+            return k(f"(List.head? {r})", ("opt", tr[1]))  # `Option<&T>`
+        if tr[0] == "opt" and name == "cloned" and not av:
+            return k(r, tr)
+        if tr[0] == "time" and name == "try_into" and not av:
+            return k(f"({self.ext('ext_extended_time_try_into_naive_time')} {r})", ("resunit", ("ntime",)))
+        if tr[0] == "resunit" and name == "expect" and [t for _, t in av] == [("str",)]:
+            v = self.tmp()
+            return [f"match {r} with", f"| none => .error (.panic \"{av[0][0]}: ()\")", f"| some {v} =>"] + k(v, tr[1])
+        return IterGen.method(self, e, r, tr, av, k)
+
+    def stmts(self, blk, i, env, frame, k):
+        if i == len(blk.stmts) and blk.tail is not None and blk.tail.kind == "var" and blk.tail.name == "None" and "None" not in env \
+                and frame["kind"] == "fn" and k is None and self.node.ret[0] == "opt":
+            return self.ret(blk.tail, "none", self.node.ret, frame, env)
+        if i < len(blk.stmts) and blk.stmts[i].kind == "selfcall":
+            self.frame = frame
+            s = blk.stmts[i]
+            if s.e.name != "consume_until_next_kind" or len(s.e.args) != 1:
+                fail(self.w(s), f"the call `self.{s.e.name}(..);` is outside the translated subset (iter functions)")
+
+            def ka(a, t):
+                if t != ("kind",):
+                    fail(self.w(s), "`self.consume_until_next_kind(kind)`: argument type")
+                v = self.tmp()
+                return [f"bnd ({self.ext('ext_consume_until_next_kind')} self {a}) fun {v} =>", f"let self := {v}"] + self.stmts(blk, i + 1, env, frame, k)
+            return self.cg(s.e.args[0], env, ka)
+        if i < len(blk.stmts) and blk.stmts[i].kind == "ifletelse":
+            self.frame = frame
+            s = blk.stmts[i]
+            if i + 1 != len(blk.stmts) or blk.tail is not None or k is not None or frame["kind"] != "fn":
+                fail(self.w(s), "`if let .. else ..` is translated only as the whole body of the function (iter functions)")
+
+            def ks(a, t):
+                if t[0] != "opt":
+                    fail(self.w(s), "`if let Some(..)` on a value that is not an `Option`")
+                if s.name in env:
+                    fail(self.w(s), f"the pattern variable `{s.name}` shadows a variable in scope (iter functions)")
+                env2 = dict(env)
+                env2[s.name] = (t[1], False)
+                return [f"match {a} with", f"| some {lname(s.name)} => ("] + self.ind(self.block(s.body, env2, frame, None)) + ["  )", "| none => ("] \
+                    + self.ind(self.block(s.els, env, frame, None)) + ["  )"]
+            return self.cg(s.scrut, env, ks)
+        return IterGen.stmts(self, blk, i, env, frame, k)
+
+    def ret(self, node, a, t, frame, env):
+        if t != self.node.ret:
+            fail(self.w(node), f"the function returns a {tz_lty(t)} where its signature says {tz_lty(self.node.ret)}")
+        if frame["kind"] != "fn":
+            fail(self.w(node), "`return` inside a loop is outside the translated subset (iter functions)")
+        return [f".ok ({a}, self)"]
+
+    def gen(self):
+        f = self.node
+        self.frame = {"kind": "fn", "state": []}
+        body = self.block(f.body, {}, self.frame, None)
+        if self.defs or self.fuel:
+            fail(self.w(f), "loops are outside the translated subset (iter functions)")
+        exts = list(self.externs)
+        L = [f"/-- `<TimeDomainIterator<L> as Iterator>::next(&mut self) -> Option<DateTimeRange>` ({self.f}:{f.line}); the result is the item and the iterator after the call"
+             + "".join(f"; {x} = {TZ_EXT[x][1]}" for x in exts) + " -/",
+             f"def TimeDomainIterator.next {{Time Kind Comments OH : Type}} (self : {TDI_LTY}){self.ext_params(exts)} : R ({tz_lty(f.ret, False)} × {tz_lty(('tdi',), False)}) :="]
+        return L + self.ind(self.finish(body))
+
+
+def iter_tdi_section(toks):
+    tk = toks(F_OH)
+    uses = file_uses(tk)
+    for imp in [("chrono", "NaiveDateTime"), ("chrono", "NaiveDate"), ("std::iter", "Peekable"), ("opening_hours_syntax::extended_time", "ExtendedTime"),
+                ("crate", "DateTimeRange"), ("opening_hours_syntax::rules", "RuleKind")]:
+        if imp not in uses:
+            fail(F_OH, f"`use {imp[0]}::{imp[1]};` not found: the name `{imp[1]}` is read as that item")
+    if not SCHED_EXPORT:
+        fail(F_SCHED, "the schedule section has to be generated first (`crate::schedule::IntoIter`, `TimeRange`)")
+    texts = [x.text for x in tk]
+    hits = [i for i in range(len(texts) - len(TDI_STRUCT)) if texts[i : i + len(TDI_STRUCT)] == TDI_STRUCT]
+    if len(hits) != 1:
+        fail(F_OH, "`pub struct TimeDomainIterator<L: Clone + Localize> { opening_hours: OpeningHours<L>, curr_date: NaiveDate, curr_schedule: "
+                   "Peekable<crate::schedule::IntoIter>, end_datetime: NaiveDateTime, }` not found (or found twice)")
+    if not any(texts[i : i + 6] == ["pub", "const", "DATE_END", ":", "NaiveDateTime", "="] for i in range(len(texts) - 6)):
+        fail(F_OH, "`pub const DATE_END: NaiveDateTime = ..` not found")
+    et = [x.text for x in toks("opening-hours-syntax/src/extended_time.rs")]
+    time_consts = {et[i + 2] for i in range(len(et) - 5) if et[i : i + 2] == ["pub", "const"] and et[i + 3 : i + 5] == [":", "Self"]}
+    want = ["impl", "TryInto", "<", "NaiveTime", ">", "for", "ExtendedTime", "{", "type", "Error", "=", "(", ")", ";"]
+    if not any(et[i : i + len(want)] == want for i in range(len(et) - len(want))):
+        fail("opening-hours-syntax/src/extended_time.rs", "`impl TryInto<NaiveTime> for ExtendedTime { type Error = (); ..` not found: `.try_into().expect(m)` is read as that impl (panic message `m: ()`)")
+    where = find_impl_fns(tk, F_OH, "TimeDomainIterator", None, ["next"], header=TDI_ITER_HEADER)
+    o = [i for i in range(len(texts) - len(TDI_ITER_HEADER)) if texts[i : i + len(TDI_ITER_HEADER)] == TDI_ITER_HEADER][0] + len(TDI_ITER_HEADER)
+    if texts[o : o + 6] != ["{", "type", "Item", "=", "DateTimeRange", ";"]:
+        fail(f"{F_OH}:{tk[o].line}", "`type Item = DateTimeRange;` expected at the head of `impl Iterator for TimeDomainIterator<L>`")
+    L = ["/-! ### [iter extension] `<TimeDomainIterator as Iterator>::next` of opening-hours/src/opening_hours.rs -/", "", "namespace Localize", "",
+         f"/-- `struct TimeDomainIterator<L>` ({F_OH}:{tk[hits[0]].line}); `OpeningHours<L>` is the type parameter `OH`; the `Peekable<crate::schedule::IntoIter>` is the list of the items it still yields -/",
+         "structure TimeDomainIterator (Time Kind Comments OH : Type) where", "  opening_hours : OH", "  curr_date : Int",
+         "  curr_schedule : List (Sched.TimeRange Time Kind Comments)", "  end_datetime : Int", ""]
+    p = TdiParser(tk, F_OH, "ldt")
+    p.i = where["next"]
+    node = p.fn()
+    g = TdiGen(F_OH, "TimeDomainIterator", node, [], uses, {})
+    g.time_consts = time_consts
+    L += g.gen() + ["", "end Localize", ""]
+    return L
+
+# [iter extension], third part: `TimeDomainIterator::new` (opening_hours.rs).  An associated function (no `self`); `&OpeningHours<L>` =
+# the abstract `OH`; `opening_hours.schedule_at(d).into_iter().peekable()` = the named, effectful parameter `ext_oh_day_schedule`
+# (the list of the items the day iterator yields: `schedule_at` and `IntoIter` are translated in the eval / schedule sections, the
+# link is NOT made here); `ndt.date()` = the count `/ 86 400·10⁹`, `ndt.time()` = `TzChrono.ndt_time`, `.into()` on a `NaiveTime` =
+# `ExtendedTime::from` (named parameter); `(&mut it).for_each(|_| {});` = the list emptied; `it.next();` as a statement = the tail;
+# `range.contains(&x)` on `ExtendedTime`s (abstract, with its derived order), `!`, `true` / `false`; an `if` statement that falls
+# through; `Self { .. }`; the `while` loop is a definition with `fuel` (tz front end).
+TDI_IMPL_HEADER = ["impl", "<", "L", ":", "Localize", ">", "TimeDomainIterator", "<", "L", ">"]
+TDI_NEW_BINDER = "{Time Kind Comments OH : Type} [LT Time] [LE Time] [DecidableLT Time] [DecidableLE Time] "
+TZ_EXT.update({
+    "ext_oh_day_schedule": ("OH → Int → R (List (Sched.TimeRange Time Kind Comments))",
+                            "`opening_hours.schedule_at(date).into_iter().peekable()`: the items the day iterator yields (`OpeningHours::schedule_at`, `schedule::IntoIter`: not linked here), effectful"),
+    "ext_naive_time_into_extended_time": ("Int → Time", "`<ExtendedTime as From<NaiveTime>>::from` (extended_time.rs), reached through `.into()`"),
+})
+
+
+class TdiNewParser(TdiParser):
+    def type_(self):
+        texts = [self.peek(k).text for k in range(5)]
+        if texts == ["&", "OpeningHours", "<", "L", ">"]:
+            self.i += 5
+            return ("oh",)
+        if texts[0] == "Self" and texts[1] != "::":
+            self.i += 1
+            return ("tdi",)
+        return TdiParser.type_(self)
+
+    def fn(self):
+        line = self.eat("fn").line
+        name = self.ident()
+        self.eat("(")
+        params = []
+        while not self.at(")"):
+            pn = self.ident()
+            self.eat(":")
+            params.append((pn, self.type_(), False))
+            if not self.at(")"):
+                self.eat(",")
+        self.eat(")")
+        self.eat("->")
+        ret = self.type_()
+        return Node("fn", line, name=name, params=params, ret=ret, body=self.block(), mut_self=False)
+
+    def stmt(self, in_block):
+        tk = self.peek()
+        if in_block and not (self.at("let") or self.at("if") or self.at("while") or self.at("return") or self.at("match") or self.at("loop")):
+            save = self.i
+            e = self.expr()
+            if self.at(";") and e.kind == "method":
+                self.i += 1
+                return Node("exprstmt", tk.line, e=e)
+            self.i = save
+        return TdiParser.stmt(self, in_block)
+
+    def prim(self):
+        tk = self.peek()
+        if tk.kind == "op" and tk.text == "&" and self.peek(1).text == "mut":
+            self.i += 2
+            return Node("refmut", tk.line, e=self.post())
+        if tk.kind == "op" and tk.text == "!":
+            self.i += 1
+            return Node("not", tk.line, e=self.post())
+        if tk.kind == "id" and tk.text == "Self" and self.peek(1).text == "{" and self.peek(2).kind == "id" and self.peek(3).text in (",", ":", "}"):
+            self.i += 2
+            fields = []
+            while not self.at("}"):
+                fn_ = self.ident()
+                if self.at(":"):
+                    self.i += 1
+                    fields.append((fn_, self.expr()))
+                else:
+                    fields.append((fn_, Node("var", tk.line, name=fn_)))
+                if not self.at("}"):
+                    self.eat(",")
+            self.eat("}")
+            return Node("structlit", tk.line, fields=fields)
+        return TdiParser.prim(self)
+
+    def closure(self, tk):
+        if self.at("|") and self.peek(1).text == "_" and self.peek(2).text == "|":
+            self.i += 3
+            return Node("closure", tk.line, params=["_"], body=self.block() if self.at("{") else Node("block", tk.line, stmts=[], tail=self.expr()))
+        return TdiParser.closure(self, tk)
+
+
+class TdiNewGen(TdiGen):
+    def cg(self, e, env, k):
+        kd = e.kind
+        if kd == "var" and e.name in ("true", "false") and e.name not in env:
+            return k(e.name, ("bool",))
+        if kd == "not":
+            def kn(a, t):
+                if t != ("bool",):
+                    fail(self.w(e), "`!` on a value that is not a `bool` (iter functions)")
+                return k(f"(!{a})", ("bool",))
+            return self.cg(e.e, env, kn)
+        if kd == "method" and e.name == "peekable" and not e.args and e.e.kind == "method" and e.e.name == "into_iter" and not e.e.args \
+                and e.e.e.kind == "method" and e.e.e.name == "schedule_at" and len(e.e.e.args) == 1:
+            def ko(o, to):
+                def kd_(d, td):
+                    if to != ("oh",) or td != ("date",):
+                        fail(self.w(e), "`opening_hours.schedule_at(date).into_iter().peekable()`: receiver / argument types (iter functions)")
+                    v = self.tmp()
+                    return [f"bnd ({self.ext('ext_oh_day_schedule')} {o} {d}) fun {v} =>"] + k(v, ("plist", ("tr",)))
+                return self.cg(e.e.e.args[0], env, kd_)
+            return self.cg(e.e.e.e, env, ko)
+        if kd == "structlit":
+            want = ["opening_hours", "curr_date", "curr_schedule", "end_datetime"]
+            if sorted(n for n, _ in e.fields) != sorted(want):
+                fail(self.w(e), f"`Self {{ .. }}`: the fields {want} are expected, each once (iter functions)")
+            fts = self.fields_of(("tdi",))
+
+            def go(i, acc):
+                if i == len(e.fields):
+                    return k("({ " + ", ".join(f"{lname(n)} := {a}" for n, a in acc) + f" }} : {TDI_LTY})", ("tdi",))
+                n, x = e.fields[i]
+
+                def kx(a, t):
+                    if t != fts[n]:
+                        fail(self.w(e), f"`Self {{ {n}: .. }}`: a {tz_lty(t)} where the field is a {tz_lty(fts[n])}")
+                    return go(i + 1, acc + [(n, a)])
+                return self.cg(x, env, kx)
+            return go(0, [])
+        return TdiGen.cg(self, e, env, k)
+
+    def method(self, e, r, tr, av, k):
+        name, tys = e.name, [t for _, t in av]
+        if tr == ("oh",) and name == "clone" and not av:
+            return k(r, tr)
+        if tr == ("ndt",) and name == "date" and not av:
+            return k(f"({r} / 86400000000000)", ("date",))
+        if tr == ("ndt",) and name == "time" and not av:
+            return k(f"(TzChrono.ndt_time {r})", ("ntime",))
+        if tr == ("ntime",) and name == "into" and not av:
+            return k(f"({self.ext('ext_naive_time_into_extended_time')} {r})", ("time",))
+        if tr == ("range", ("time",)) and name == "contains" and tys == [("time",)]:
+            return k(f"(decide ({r}.start ≤ {av[0][0]}) && decide ({av[0][0]} < {r}.«end»))", ("bool",))
+        return TdiGen.method(self, e, r, tr, av, k)
+
+    def stmts(self, blk, i, env, frame, k):
+        if i < len(blk.stmts):
+            s = blk.stmts[i]
+
+            def rest(env2):
+                return self.stmts(blk, i + 1, env2, frame, k)
+            if s.kind == "let" and not s.mut and s.e.kind == "method" and s.e.name == "clone" and not s.e.args and s.e.e.kind == "var" \
+                    and s.e.e.name == s.name and s.name in env and not env[s.name][1]:
+                self.frame = frame
+                self.cg(s.e, env, lambda a, t: [])  # type-checks the receiver (`clone` has to be known on it)
+                return rest(env)  # `let x = x.clone();`: the same value under the same name
+            if s.kind == "exprstmt":
+                self.frame = frame
+                e = s.e
+                tgt = e.e.e if e.e.kind == "refmut" else e.e
+                if tgt.kind != "var" or tgt.name not in env or env[tgt.name][0][0] != "plist":
+                    fail(self.w(s), "an expression statement is translated on a local `Peekable` only (iter functions)")
+                if not env[tgt.name][1]:
+                    fail(self.w(s), f"`{tgt.name}` is not `mut`")
+                n = lname(tgt.name)
+                if e.name == "next" and not e.args and e.e.kind == "var":
+                    return [f"let {n} := List.tail {n}"] + rest(env)
+                if e.name == "for_each" and e.e.kind == "refmut" and len(e.args) == 1 and e.args[0].kind == "closure" and e.args[0].params == ["_"] \
+                        and not e.args[0].body.stmts and e.args[0].body.tail is None:
+                    return [f"let {n} := ([] : {tz_lty(env[tgt.name][0])})"] + rest(env)
+                fail(self.w(s), f"the statement `.{e.name}(..);` is outside the translated subset (iter functions)")
+            if s.kind == "ifs" and not self.diverges(s.body):
+                self.frame = frame
+
+                def kc(c, tc):
+                    if tc != ("bool",):
+                        fail(self.w(s), "the condition is not a `bool`")
+                    for x in s.body.stmts:
+                        if x.kind != "exprstmt":
+                            fail(self.w(x), "an `if` statement that falls through may only contain statements on a local `Peekable` (iter functions)")
+                    # the variables written in the block are `mut` locals of the enclosing scope: the continuation is generated in both branches
+                    inner = self.block(s.body, env, frame, lambda e3: rest(env))
+                    return [f"if {c} then ("] + self.ind(inner) + ["  )", "else ("] + self.ind(rest(env)) + ["  )"]
+                return self.cg(s.c, env, kc)
+        return TdiGen.stmts(self, blk, i, env, frame, k)
+
+    def ret(self, node, a, t, frame, env):
+        if t != self.node.ret:
+            fail(self.w(node), f"the function returns a {tz_lty(t)} where its signature says {tz_lty(self.node.ret)}")
+        if frame["kind"] in ("fn", "loop"):
+            return [f".ok {a}"]
+        return [f".ok (.ret {a} {self.tuple_(frame['state'])})"]
+
+    def gen(self):
+        f = self.node
+        env = {pn: (pt, mut) for pn, pt, mut in f.params}
+        self.frame = {"kind": "fn", "state": []}
+        body = self.block(f.body, env, self.frame, None)
+        exts = list(self.externs)
+        L = []
+        for name, line, what, params, rty, lines, dexts in self.defs:
+            if what != "while":
+                fail(f"{self.f}:{line}", "only `while` loops are translated (iter functions)")
+            L.append(f"/-- the `while` loop of `TimeDomainIterator::{f.name}` ({self.f}:{line}); `fuel` bounds its iterations; `.ret v s` = `return v`, `.next s` = the condition failed"
+                     + "".join(f"; {x} = {TZ_EXT[x][1]}" for x in dexts) + " -/")
+            L.append(f"def {name} {TDI_NEW_BINDER}{params}{self.ext_params(dexts)} : {rty} :=")
+            L += self.ind(self.finish(lines)) + [""]
+        ps = " ".join(f"({lname(pn)} : {tz_lty(pt)})" for pn, pt, _ in f.params)
+        L.append(f"/-- `TimeDomainIterator::{f.name}(opening_hours: &OpeningHours<L>, start_datetime: NaiveDateTime, end_datetime: NaiveDateTime) -> Self` ({self.f}:{f.line})"
+                 + "".join(f"; {x} = {TZ_EXT[x][1]}" for x in exts) + ("; `fuel` bounds the iterations of the loop (running out is an error outcome)" if self.fuel else "") + " -/")
+        L.append(f"def {self.lean_name} {TDI_NEW_BINDER}{ps}{self.ext_params(exts)}{' (fuel : Nat)' if self.fuel else ''} : R {tz_lty(f.ret, False)} :=")
+        return L + self.ind(self.finish(body))
+
+
+def iter_tdi_new_section(toks):
+    tk = toks(F_OH)
+    uses = file_uses(tk)
+    for imp in [("chrono", "NaiveDateTime"), ("std::iter", "Peekable")]:
+        if imp not in uses:
+            fail(F_OH, f"`use {imp[0]}::{imp[1]};` not found: the name `{imp[1]}` is read as that item")
+    texts = [x.text for x in tk]
+    if len([i for i in range(len(texts) - len(TDI_STRUCT)) if texts[i : i + len(TDI_STRUCT)] == TDI_STRUCT]) != 1:
+        fail(F_OH, "the declaration of `struct TimeDomainIterator` is not the expected one (see the section `iter-next`)")
+    et = [x.text for x in toks("opening-hours-syntax/src/extended_time.rs")]
+    want = ["impl", "From", "<", "NaiveTime", ">", "for", "ExtendedTime", "{"]
+    if not any(et[i : i + len(want)] == want for i in range(len(et) - len(want))):
+        fail("opening-hours-syntax/src/extended_time.rs", "`impl From<NaiveTime> for ExtendedTime {` not found: `.into()` on a `NaiveTime` is read as that impl")
+    where = find_impl_fns(tk, F_OH, "TimeDomainIterator", None, ["new"], header=TDI_IMPL_HEADER)
+    L = ["/-! ### [iter extension] `TimeDomainIterator::new` of opening-hours/src/opening_hours.rs -/", "", "namespace Localize", ""]
+    p = TdiNewParser(tk, F_OH, "ldt")
+    p.i = where["new"]
+    node = p.fn()
+    g = TdiNewGen(F_OH, "TimeDomainIterator", node, [], uses, {})
+    g.time_consts = set()
+    L += g.gen() + ["", "end Localize", ""]
+    return L
+
+# ---- end of [iter extension] --------------------------------------------------------------------
 
 def main(argv):
     repo, out, overrides = REPO, OUT, {}
